@@ -267,6 +267,9 @@ async fn full_session(nodes: &[SimNode], a: u8, b: u8, cx: &mut Cx) -> Res<Resul
         if s.done() {
             break;
         }
+        if s.a2b.held() > 4 << 20 || s.b2a.held() > 4 << 20 {
+            return Err(Violation::new("no-silent-round/message-blowup", format!("a session between nodes {a} and {b} produces messages of several megabytes for a few dozen entries")));
+        }
         if s.step() {
             idle = 0;
         } else {
